@@ -959,7 +959,7 @@ func TestVerif_C15(t *testing.T) {
 	c.Bound("depth2_trees", len(d2))
 	c.Bound("depth2_subtrees", len(subs))
 
-	nb1 := c.Pick(7, 9) // candidate bits for the depth<=1 family (+Count, +Store)
+	nb1 := c.Pick(6, 9) // candidate bits for the depth<=1 family (+Count, +Store)
 	nb2 := c.Pick(4, 7) // candidate bits for the depth-2 family
 	c.Bound("candidate_bits_depth1", nb1)
 	c.Bound("candidate_bits_depth2", nb2)
